@@ -19,6 +19,7 @@ gv := {|acc, x| acc.g(x)}
 unacc := {|r| r.l if r != nil}
 nn := Nil.bear({reason: "none"}).new
 kvOf := {|x| ["k#{x.id}", x.f]}
+kvv := {|x| x.kv}
 wrappedErr := 1.try./(0).err
 kvOf2 := {|x| [[x.id % 2], x.f]}
 `
@@ -47,12 +48,19 @@ func c04elem(k int, beh string) string {
 	case bVal:
 		if (k+c04nilAlt)%2 == 1 {
 			// an element that answers unknown names through `_missing` is an element like any other
-			return fmt.Sprintf(`{id: %d, f: m{"C%d".p; %d}, f2: m{|t| "C%d".p; [%d, t]}, _missing: m{|name| "MISSING-CALLED".p; name}}`, k, k, 100+k, k, 100+k)
+			return fmt.Sprintf(`{id: %d, f: m{"C%d".p; %d}, f2: m{|t| "C%d".p; [%d, t]}, kv: m{"C%d".p; ["k%d", %d]}, _missing: m{|name| "MISSING-CALLED".p; name}}`, k, k, 100+k, k, 100+k, k, k, 100+k)
 		}
-		return fmt.Sprintf(`{id: %d, f: m{"C%d".p; %d}, f2: m{|t| "C%d".p; [%d, t]}}`, k, k, 100+k, k, 100+k)
+		return fmt.Sprintf(`{id: %d, f: m{"C%d".p; %d}, f2: m{|t| "C%d".p; [%d, t]}, kv: m{"C%d".p; ["k%d", %d]}}`, k, k, 100+k, k, 100+k, k, k, 100+k)
 	case bNil:
-		return fmt.Sprintf(`{id: %d, f: m{"C%d".p; nil}, f2: m{|t| "C%d".p; nil}}`, k, k, k)
+		return fmt.Sprintf(`{id: %d, f: m{"C%d".p; nil}, f2: m{|t| "C%d".p; nil}, kv: m{"C%d".p; nil}}`, k, k, k, k)
 	case bRaise:
+		// the kind of error raised varies with the position (a raise is a raise whatever its kind)
+		switch k % 3 {
+		case 1:
+			return fmt.Sprintf(`{id: %d, f: m{"C%d".p; noSuchName%d}, f2: m{|t| "C%d".p; noSuchName%d}}`, k, k, k, k, k)
+		case 2:
+			return fmt.Sprintf(`{id: %d, f: m{"C%d".p; 1 / 0}, f2: m{|t| "C%d".p; 1 / 0}}`, k, k, k)
+		}
 		return fmt.Sprintf(`{id: %d, f: m{"C%d".p; raise ValueErr.new("m%d")}, f2: m{|t| "C%d".p; raise ValueErr.new("m%d")}}`, k, k, k, k, k)
 	case bStop:
 		return fmt.Sprintf(`{id: %d, f: m{"C%d".p; raise StopIterErr.new("m%d")}, f2: m{|t| "C%d".p; raise StopIterErr.new("m%d")}}`, k, k, k, k, k)
@@ -60,6 +68,20 @@ func c04elem(k int, beh string) string {
 		return fmt.Sprintf(`{id: %d, f: m{"C%d".p; wrappedErr}, f2: m{|t| "C%d".p; [wrappedErr, t]}}`, k, k, k)
 	}
 	return "nil"
+}
+
+// c04raised is the kind and message of the error element k raises under behaviour b.
+func c04raised(k int, b string) [2]string {
+	if b == bStop {
+		return [2]string{"StopIterErr", fmt.Sprintf("m%d", k)}
+	}
+	switch k % 3 {
+	case 1:
+		return [2]string{"NameErr", fmt.Sprintf("name `noSuchName%d` is not defined", k)}
+	case 2:
+		return [2]string{"ZeroDivisionErr", "cannot be divided by 0"}
+	}
+	return [2]string{"ValueErr", fmt.Sprintf("m%d", k)}
 }
 
 type c04out struct {
@@ -107,7 +129,7 @@ func c04listModel(add string, behs []string) c04out {
 				o.parts = append(o.parts, fmt.Sprintf("E%d", k))
 				continue
 			}
-			return c04out{isErr: true, kind: map[string]string{bRaise: "ValueErr", bStop: "StopIterErr"}[b], msg: fmt.Sprintf("m%d", k), calls: o.calls}
+			return c04out{isErr: true, kind: c04raised(k, b)[0], msg: c04raised(k, b)[1], calls: o.calls}
 		}
 	}
 	return o
@@ -145,7 +167,7 @@ func c04reduceModel(add string, behs []string) c04out {
 			if add == "~" {
 				continue
 			}
-			return c04out{isErr: true, kind: map[string]string{bRaise: "ValueErr", bStop: "StopIterErr"}[b], msg: fmt.Sprintf("m%d", k), calls: o.calls}
+			return c04out{isErr: true, kind: c04raised(k, b)[0], msg: c04raised(k, b)[1], calls: o.calls}
 		}
 	}
 	o.accParts, o.accNil = acc, accNil
@@ -338,6 +360,31 @@ func runC04(w *fw.W) {
 						for _, b := range behs {
 							if b != bVal {
 								allVal = false
+							}
+						}
+						valOrNil := true
+						for _, b := range behs {
+							if b != bVal && b != bNil {
+								valOrNil = false
+							}
+						}
+						if valOrNil && add == "" {
+							// the three forms digest the collected pairs alike — also when nothing was collected
+							// (empty receiver, or every call answered nil): the result is then the argument itself
+							var pairs, objp []string
+							for k, b := range behs {
+								if b == bVal {
+									pairs = append(pairs, fmt.Sprintf("[\"k%d\", %d]", k, 100+k))
+									objp = append(objp, fmt.Sprintf("\"k%d\": %d", k, 100+k))
+								}
+							}
+							cm := c04out{calls: lm.calls}
+							for _, f := range []struct{ form, call string }{{"prop", "kv"}, {"literal", "{|x| x.kv}"}, {"var", "^kvv"}} {
+								judge("@([]) pairs", f.form, recv+`@([])`+f.call, cm, "["+strings.Join(pairs, ", ")+"]")
+								judge("@({}) pairs", f.form, recv+`@({})`+f.call, cm, "{"+strings.Join(objp, ", ")+"}")
+								judge("@(%{}) pairs", f.form, recv+`@(%{})`+f.call, cm, "%{"+strings.Join(objp, ", ")+"}")
+								judge("@({zz: 1}) pairs", f.form, recv+`@({zz: 1})`+f.call, cm, "{"+strings.Join(append(append([]string{}, objp...), `"zz": 1`), ", ")+"}")
+								judge(`@(%{"zz": 1}) pairs`, f.form, recv+`@(%{"zz": 1})`+f.call, cm, "%{"+strings.Join(append(append([]string{}, objp...), `"zz": 1`), ", ")+"}")
 							}
 						}
 						if allVal && add == "" {
